@@ -1,0 +1,13 @@
+//go:build verif
+
+package settings
+
+// Contracts checked by /verif/gocv (comment-only file; see /verif/DESIGN.md §3).
+
+// C32. The trusted-proxy CIDR list configured on the command line or in the environment is the list the server uses: a
+// source that does not mention it does not erase it (an empty list means "trust every peer"). The merge is written with
+// reflection, outside the modelled subset: ghost scenario, bounded random search.
+//@ func verifSliceSettingsSurviveTheMerge
+//@ mode nosafety
+//@ bounded 600
+//@ ensures[C32:configured-proxy-list-survives-the-merge] result
